@@ -32,6 +32,10 @@ def run(call):
         mode = call["mode"]
         if mode == "groups":
             return run_groups(call)
+        if mode == "axes":
+            return run_axes(call)
+        if mode == "values":
+            return run_values(call)
         tbs = system()
         if mode == "two-values":
             key = call["key"]
@@ -87,6 +91,121 @@ def expected_groups(person_ids, households):
             own[p] = len(declared) + n_new
             n_new += 1
     return declared, mem, role, own
+
+
+def run_axes(call):
+    """a situation with one axis: the simulation built equals the concatenation of the copies it stands for - entity by entity
+    (counts, memberships, roles) and value by value (the axis variable along the axis, every other input repeated)"""
+    from openfisca_core.simulations import SimulationBuilder
+    n = 0
+    try:
+        for sit in call["situations"]:
+            n += 1
+            tbs = system()
+            base = {k: v for k, v in sit.items() if k != "axes"}
+            ref = SimulationBuilder().build_from_entities(system(), base)
+            sim = SimulationBuilder().build_from_entities(tbs, sit)
+            ax = sit["axes"][0][0]
+            k, lo, hi, idx = ax["count"], ax["min"], ax["max"], ax.get("index", 0)
+            problems = []
+            N, G = ref.persons.count, ref.populations["household"].count
+            if sim.persons.count != k * N or sim.populations["household"].count != k * G:
+                problems.append(f"counts {sim.persons.count} persons / {sim.populations['household'].count} households for {k} copies of {N} / {G}")
+            else:
+                rm = [int(x) for x in ref.populations["household"].members_entity_id]
+                rr = [r.key for r in ref.populations["household"].members_role]
+                gm = [int(x) for x in sim.populations["household"].members_entity_id]
+                gr = [r.key for r in sim.populations["household"].members_role]
+                want_m = [c * G + m for c in range(k) for m in rm]
+                if gm != want_m:
+                    problems.append(f"memberships {gm}, the {k} copies have {want_m}")
+                if gr != rr * k:
+                    problems.append(f"roles {gr}, the copies have {rr * k}")
+                per = ax.get("period", "2018-01")
+                from openfisca_core import periods
+                got = sim.get_array(ax["name"], periods.period(per))
+                refv = ref.get_array(ax["name"], periods.period(per))
+                want = []
+                for c in range(k):
+                    for i in range(N):
+                        want.append(lo + c * (hi - lo) / (k - 1) if i == idx else (float(refv[i]) if refv is not None else 0.0))
+                if got is None or [round(float(x), 4) for x in got] != [round(x, 4) for x in want]:
+                    problems.append(f"{ax['name']} along the axis: {None if got is None else [float(x) for x in got]}, the copies have {want}")
+                other = sim.get_array("hm", periods.period("2018-01"))
+                refo = ref.get_array("hm", periods.period("2018-01"))
+                if refo is not None and (other is None or [float(x) for x in other] != [float(x) for x in refo] * k):
+                    problems.append(f"hm: {None if other is None else [float(x) for x in other]}, the copies have {[float(x) for x in refo] * k}")
+            if problems:
+                return {"kind": "return", "value": {"ok": False, "problems": problems[:3], "situation": sit}}
+        return {"kind": "return", "value": {"ok": True, "situations": n}}
+    except BaseException as ex:
+        return {"kind": "raise", "exc": type(ex).__name__, "mro": [c.__name__ for c in type(ex).__mro__],
+                "msg": (str(ex)[:300] + " on " + str(sit)[:300]), "tb": traceback.format_exc()[-1500:]}
+
+
+def run_values(call):
+    """values of every declared type through the builder, in one process and in a fixed order (so that a reading remembered from one
+    variable cannot leak into another): well-formed ones land at their entity and period, ill-formed ones are situation errors"""
+    import datetime
+    import numpy
+    from openfisca_core import entities, errors, periods, taxbenefitsystems, variables
+    from openfisca_core.indexed_enums import Enum
+    from openfisca_core.simulations import SimulationBuilder
+    try:
+        person = entities.build_entity(key="person", plural="persons", label="", is_person=True)
+        tbs = taxbenefitsystems.TaxBenefitSystem([person])
+        M = periods.DateUnit.MONTH
+
+        class Housing(Enum):
+            owner = "o"
+            tenant = "t"
+
+        class Transport(Enum):
+            car = "c"
+            tenant = "x"      # the same word names another member here
+            bike = "b"
+            owner = "y"
+
+        def var(name, vt, **kw):
+            tbs.add_variable(type(name, (variables.Variable,), dict(value_type=vt, entity=person, definition_period=M, **kw)))
+        var("housing", Enum, possible_values=Housing, default_value=Housing.owner)
+        var("transport", Enum, possible_values=Transport, default_value=Transport.car)
+        var("amount", float)
+        var("count_", int)
+        var("born", datetime.date)
+        var("text", str)
+        var("yes", bool)
+        problems = []
+        steps = [("housing", "tenant", "Housing.tenant"), ("transport", "tenant", "Transport.tenant"), ("transport", "owner", "Transport.owner"),
+                 ("housing", "owner", "Housing.owner"), ("housing", "car", "refuse"), ("transport", "bike", "Transport.bike"), ("housing", "bike", "refuse"),
+                 ("amount", 12.5, 12.5), ("amount", "12.5 * 2", 25.0), ("amount", "twelve", "refuse"), ("count_", 3, 3), ("count_", "three", "refuse"),
+                 ("born", "1980-02-29", "1980-02-29"), ("born", "1981-02-29", "refuse"), ("born", "1980-13-01", "refuse"), ("text", "abc", "abc"),
+                 ("yes", True, True), ("housing", 7, "refuse"), ("amount", "", "refuse" if False else None)]
+        for name, value, want in steps:
+            if want is None:
+                continue
+            sit = {"persons": {"a": {name: {"2018-01": value}}, "b": {}}}
+            try:
+                sim = SimulationBuilder().build_from_entities(tbs, sit)
+            except errors.SituationParsingError:
+                if want != "refuse":
+                    problems.append(f"{name} = {value!r}: a well-formed value was refused")
+                continue
+            except Exception as e:
+                problems.append(f"{name} = {value!r}: {type(e).__name__} instead of a situation error")
+                continue
+            if want == "refuse":
+                problems.append(f"{name} = {value!r}: accepted, stored {sim.get_array(name, periods.period('2018-01'))!r}")
+                continue
+            arr = sim.get_array(name, periods.period("2018-01"))
+            got = arr.decode()[0] if hasattr(arr, "decode") else arr[0]
+            shown = str(got) if name in ("housing", "transport", "born") else got
+            if (shown != want) if not isinstance(want, float) else abs(float(got) - want) > 1e-6:
+                problems.append(f"{name} = {value!r}: stored {shown!r}, declared {want!r}")
+        return {"kind": "return", "value": {"ok": not problems, "problems": problems[:4]}}
+    except BaseException as ex:
+        return {"kind": "raise", "exc": type(ex).__name__, "mro": [c.__name__ for c in type(ex).__mro__],
+                "msg": str(ex)[:300], "tb": traceback.format_exc()[-1500:]}
 
 
 def run_groups(call):
